@@ -184,6 +184,13 @@ def main():
     for dev, (k, a, b) in (("dropPending", ("onceT", 0, 2)), ("noDedupe", ("histT", 1, 3))):
         r, _ = densemc.run("C05_op_dev_" + dev, k, a, b, maxt=4, maxn=3, dev=[dev], workers=4, expect_violation=True)
         devs[dev] = r["violated"]
+    # the open finding F-05c at design level: the same operator model on signals whose first time-stamp is 1 (begin > 0)
+    r, _ = densemc.run("C05_op_t0", "histT", 1, 3, maxt=4, maxn=3, workers=4, expect_violation=True, t0=1)
+    devs["first time-stamp 1, begin > 0 (F-05c, no deviation switched on)"] = r["violated"]
+    r, _ = densemc.run("C05_op_t0_begin0", "onceT", 0, 2, maxt=4, maxn=3, workers=4, t0=1)
+    rep.add_mc("DenseOnMC onceT[0,2] on signals whose first time-stamp is 1 (begin = 0: holds)", r)
+    if r["violated"]:
+        rep.mc_violation("DenseOnMC_t0_begin0", r)
     rep.extra["deviation_on_counterexamples"] = devs
     if len(behs) > (40000 if quick else 400000):
         behs = rng.sample(behs, 40000 if quick else 400000)
